@@ -20,6 +20,7 @@ import (
 	"runtime"
 	"sort"
 	"strconv"
+	"strings"
 	"sync"
 	"time"
 
@@ -31,7 +32,12 @@ import (
 
 type callerPar struct {
 	Kind string `json:"kind"`
-	To   bool   `json:"to"`
+	To   string `json:"to"` // never | expired | late
+}
+
+type evPar struct {
+	K string `json:"k"` // cancel | deadline
+	C string `json:"c"`
 }
 
 type params struct {
@@ -39,7 +45,7 @@ type params struct {
 	N   int64                `json:"N"`
 	Q   int                  `json:"Q"`
 	Cal map[string]callerPar `json:"cal"`
-	Can map[string]string    `json:"can"`
+	Ev  map[string]evPar     `json:"ev"`
 }
 
 type behaviour struct {
@@ -48,7 +54,7 @@ type behaviour struct {
 }
 
 type rec struct {
-	Ev       string            `json:"ev"` // reset | step | skip | blocked
+	Ev       string            `json:"ev"` // reset | step | skip | blocked | discard
 	Beh      int               `json:"beh"`
 	P        string            `json:"p"`
 	Par      *params           `json:"par,omitempty"`
@@ -62,6 +68,9 @@ type rec struct {
 	Exec     map[string]int    `json:"exec"`
 	Done     map[string]int    `json:"done"`
 	Res      map[string]string `json:"res"`
+	Why      map[string]string `json:"why"`
+	Exret    map[string]int    `json:"exret"`
+	First    map[string]string `json:"first"`
 	Rejected uint64            `json:"rejected"`
 	Queued   uint64            `json:"queued"`
 	Timeouts uint64            `json:"timeouts"`
@@ -69,7 +78,14 @@ type rec struct {
 	InN      uint64            `json:"inN"`
 }
 
-const stepWait = 3 * time.Second
+const (
+	stepWait = 3 * time.Second
+	// real queue timeout of "late" callers; a deadline event sleeps until it has certainly fired, and a
+	// behaviour in which it could fire before its event is discarded (never validated, never counted)
+	lateT      = 300 * time.Millisecond
+	lateGuard  = 60 * time.Millisecond
+	lateMargin = 80 * time.Millisecond
+)
 
 var hookLabel = map[string]string{
 	"enq_before_send": "presend",
@@ -149,6 +165,10 @@ type world struct {
 	exec    map[string]int
 	done    map[string]int
 	res     map[string]string
+	why     map[string]string
+	exret   map[string]int
+	first   map[string]string
+	t0, t1  map[string]time.Time
 	wcur    string
 	mu      sync.Mutex
 }
@@ -171,9 +191,12 @@ func (w *world) runCaller(p *proc, name string, cp callerPar, ctx context.Contex
 	case "heavy_batch":
 		method = "eth_call&eth_blockNumber"
 	}
-	if cp.To {
+	switch cp.To {
+	case "expired":
 		w.rl.VerifSetHeavyQueueTimeout(-time.Second) // queue deadline already expired
-	} else {
+	case "late":
+		w.rl.VerifSetHeavyQueueTimeout(lateT)
+	default:
 		w.rl.VerifSetHeavyQueueTimeout(time.Hour)
 	}
 	err := w.rl.Acquire(ctx, cu, method, func() error {
@@ -191,18 +214,32 @@ func (w *world) runCaller(p *proc, name string, cp callerPar, ctx context.Contex
 		return runResult{name}
 	})
 	var rr runResult
-	r := "err"
-	if errors.As(err, &rr) {
+	r, y := "err", "other"
+	switch {
+	case errors.As(err, &rr):
+		y = "run"
 		if rr.caller == name {
 			r = "ok"
 		} else {
 			r = "foreign"
 		}
-	} else if err == nil {
+	case err == nil:
 		r = "nil"
+	case errors.Is(err, context.Canceled):
+		y = "canceled"
+	case errors.Is(err, context.DeadlineExceeded):
+		y = "deadline_exceeded"
+	case strings.Contains(err.Error(), "request timeout in queue"):
+		y = "queue_timeout"
+	case strings.Contains(err.Error(), "provider busy") || strings.Contains(err.Error(), "provider queue full"):
+		y = "rejected"
+	default:
+		y = "other:" + err.Error()
 	}
 	w.mu.Lock()
 	w.res[name] = r
+	w.why[name] = y
+	w.exret[name] = w.exec[name]
 	w.mu.Unlock()
 }
 
@@ -247,6 +284,9 @@ func (w *world) project(r *rec) {
 	r.Exec = map[string]int{}
 	r.Done = map[string]int{}
 	r.Res = map[string]string{}
+	r.Why = map[string]string{}
+	r.Exret = map[string]int{}
+	r.First = map[string]string{}
 	w.mu.Lock()
 	defer w.mu.Unlock()
 	for _, c := range w.callers {
@@ -255,6 +295,9 @@ func (w *world) project(r *rec) {
 		r.Exec[c] = w.exec[c]
 		r.Done[c] = w.done[c]
 		r.Res[c] = w.res[c]
+		r.Why[c] = w.why[c]
+		r.Exret[c] = w.exret[c]
+		r.First[c] = w.first[c]
 	}
 	r.Wpc = w.procs["w"].pc
 	if r.Wpc == "exec" {
@@ -266,7 +309,8 @@ var serial int
 
 func runBehaviour(bi int, b behaviour, out *hx.Out) bool {
 	w := &world{par: b.Par, procs: map[string]*proc{}, cancel: map[string]context.CancelFunc{}, canc: map[string]bool{},
-		exec: map[string]int{}, done: map[string]int{}, res: map[string]string{}}
+		exec: map[string]int{}, done: map[string]int{}, res: map[string]string{}, why: map[string]string{},
+		exret: map[string]int{}, first: map[string]string{}, t0: map[string]time.Time{}, t1: map[string]time.Time{}}
 	wp := &proc{name: "w", release: make(chan struct{}), parked: make(chan string, 1), pc: "new"}
 	w.procs["w"] = wp
 	cur = &sched{byGid: map[uint64]*proc{}, worker: wp}
@@ -284,6 +328,9 @@ func runBehaviour(bi int, b behaviour, out *hx.Out) bool {
 	sort.Strings(w.callers)
 	for _, c := range w.callers {
 		w.res[c] = "none"
+		w.why[c] = "none"
+		w.exret[c] = -1
+		w.first[c] = "none"
 		w.spawn(c, b.Par.Cal[c])
 	}
 	r := rec{Ev: "reset", Beh: bi, Par: &b.Par}
@@ -291,14 +338,46 @@ func runBehaviour(bi int, b behaviour, out *hx.Out) bool {
 	out.Emit(r)
 	for _, n := range b.Sched {
 		r := rec{Ev: "step", Beh: bi, P: n}
-		if c, ok := b.Par.Can[n]; ok {
-			w.cancel[c]()
-			w.canc[c] = true
+		// a "late" queue deadline that could fire before the schedule says so makes the replay meaningless
+		for _, c := range w.callers {
+			pcc := w.procs[c].pc
+			if b.Par.Cal[c].To == "late" && (pcc == "presend" || pcc == "waiting") && w.first[c] != "deadline" &&
+				time.Now().After(w.t0[c].Add(lateT-lateGuard)) {
+				r.Ev = "discard"
+			}
+		}
+		if r.Ev == "discard" {
+			w.project(&r)
+			out.Emit(r)
+			return false
+		}
+		if e, ok := b.Par.Ev[n]; ok {
+			if e.K == "cancel" {
+				w.cancel[e.C]()
+				w.canc[e.C] = true
+			} else {
+				time.Sleep(time.Until(w.t1[e.C].Add(lateT + lateMargin)))
+			}
+			if w.first[e.C] == "none" {
+				w.first[e.C] = e.K
+			}
 		} else if p := w.procs[n]; p == nil || p.pc == "fin" {
 			r.Ev = "skip"
-		} else if !w.step(p) {
-			r.Ev = "blocked"
-			p.pc = "blocked"
+		} else {
+			from := p.pc
+			if from == "start" {
+				w.t0[n] = time.Now()
+			}
+			if !w.step(p) {
+				r.Ev = "blocked"
+				p.pc = "blocked"
+			}
+			if from == "start" {
+				w.t1[n] = time.Now()
+				if p.pc == "presend" && b.Par.Cal[n].To == "expired" && w.first[n] == "none" {
+					w.first[n] = "deadline"
+				}
+			}
 		}
 		w.project(&r)
 		out.Emit(r)
